@@ -188,6 +188,16 @@ def u_ctl():
     add("ctl-multi", ["a: %s" % Q2, "b: %s" % Q2], Q2, ["x, y = a, b", "x, y = y, x + y", "return y ^ x"])
     add("ctl-multi", ["a: %s" % Q2, "b: %s" % Q2], Q2, ["x = a", "y = b", "for i in range(2):", "    x, y = y, x + y", "return x"])
     add("ctl-multi", ["a: bool", "b: bool"], "bool", ["a, b = b, a", "return a and not b"])
+    # wide disjunctions that the optimizer profiles leave n-ary (nested under a binary operator)
+    B6 = ["a: bool", "b: bool", "c: bool", "d: bool", "e: bool", "f: bool", "g: bool"]
+    add("ctl-wideor", B6, "bool", "return g or not (a or b or c or d or e or f)")
+    add("ctl-wideor", B6, "bool", "return g and (a or b or c or d or e)")
+    add("ctl-wideor", B6, "bool", "return (g and (a or b or c or d or e or f)) or (e and not a)")
+    add("ctl-wideor", B6, "bool", "return g ^ (a or b or c or d or e or f or (not g))")
+    add("ctl-wideor", B6[:5], "bool", "return e or (d and (a or b or c or (not e)))")
+    add("ctl-wideor", ["a: Qint[6]", "b: Qint[6]"], "Qint[6]", "return a if b != 0 else 1")
+    add("ctl-wideor", ["a: Qint[5]", "g: bool"], "bool", "return (g and a != 0) or (not g and a == 0)")
+    add("ctl-wideor", ["a: Qint[7]", "g: bool"], "bool", "return g or a != 0")
     # aliases: two names for one value
     add("ctl-alias", ["a: bool", "b: bool", "c: bool"], "bool", ["last = a", "return (last ^ a) or (b and c)"])
     add("ctl-alias", ["a: %s" % Q2, "b: %s" % Q2], Q2, ["s = a", "s += a", "return s + b"])
@@ -196,6 +206,13 @@ def u_ctl():
     add("ctl-alias", ["a: %s" % Q2], Q2, ["b = a", "c = b", "return (a ^ b) + c"])
     add("ctl-alias", ["a: bool", "b: bool", "c: bool"], "bool", ["v = a and b", "x = v and c", "v = v ^ c", "y = v and c", "return x ^ y"])
     add("ctl-alias", ["a: bool", "b: bool", "c: bool"], "Tuple[bool, bool]", ["x = (a ^ b) and c", "y = a and c", "return (x ^ y, x)"])
+    # the loop variable is read after the loop
+    add("ctl-for", ["a: %s" % Q4], Q4, ["i = 0", "for i in range(3):", "    a += i", "return a + i"])
+    add("ctl-for", ["a: Qlist[%s, 3]" % Q2], Q2, ["x = a[0]", "c = 0", "for x in a:", "    c = c ^ x", "return c ^ x"])
+    add("ctl-for", ["a: %s" % Q2, "b: bool"], Q4, ["i = 0", "c = 0", "if b:", "    for i in range(4):", "        c += a", "return c + i"])
+    add("ctl-for", ["a: %s" % Q4], Q4, ["r = a", "for i in range(3):", "    r = r + (a << i)", "return r"])
+    add("ctl-for", ["a: %s" % Q4, "b: %s" % Q4], Q4, ["r = b", "for i in range(3):", "    r = r ^ (a << i)", "return r"])
+    add("ctl-for", ["a: %s" % Q4], Q4, ["r = a", "for i in range(3):", "    r = r - i", "return r"])
     add("ctl-for", ["a: %s" % Q2], Q4, ["c = 0", "for i in range(3):", "    c += a", "return c"])
     add("ctl-for", ["a: %s" % Q2], Q4, ["c = 0", "for i in range(4):", "    c = c + i", "return c + a"])
     add("ctl-for", ["a: %s" % Q4], "bool", ["c = False", "for i in range(4):", "    c = c ^ a[i]", "return c"])
@@ -337,6 +354,13 @@ def u_reject():
     add(["a: %s" % Q2], Q2, ["b: Qint[2] = a", "return b"])
     add(["a: %s" % Q2], Q2, ["pass", "return a"])
     add(["a: %s" % Q2], Q2, ["a += 1", "return a"])
+    add(["a: Qfixed[2,2]", "b: Qfixed[2,2]"], "Qint[4]", "return a + b")
+    add(["a: Qfixed[1,3]"], "Qint[4]", "return a")
+    add(["a: Qint[4]"], "Qfixed[2,2]", "return a")
+    add(["a: Qint[4]"], "Qfixed[1,3]", "return a + 1")
+    add(["a: Qchar"], "Qint[8]", "return a")
+    add(["a: Qint[8]"], "Qchar", "return a")
+    add(["a: Qint[8]", "b: bool"], "Qchar", "return a if b else 65")
     add(["a"], Q2, "return a")
     P.append(("reject", "def prog(a: Qint[2]):\n    return a\n"))
     return P
